@@ -319,10 +319,17 @@ def AckQ.advance (q : AckQ) (nb : Nat) : AckQ :=
 
 def AckQ.resynchronize (q : AckQ) (senderNext : Nat) : AckQ := q.advance senderNext
 
+/-- The `while let Some(first_entry) = self.entries.front()` loop of `mark_seen`: pending groups a whole
+window or more behind the newest frame are dropped from the front. -/
+def dropOld (size id : Nat) : List AckGroup → List AckGroup
+  | [] => []
+  | g :: rest => if wsub32 id g.baseId ≥ size then dropOld size id rest else g :: rest
+
 /-- `mark_seen`. -/
 def AckQ.markSeen (q : AckQ) (id : Nat) (nonce : Bool) : AckQ :=
   if q.contains id then
     let q := q.advance (wadd32 id 1)
+    let q := { q with entries := dropOld q.size id q.entries }
     match q.entries.getLast? with
     | some last =>
       let bit := wsub32 id last.baseId
